@@ -11,8 +11,40 @@ Lemma forallb_days P a b : forallb P (cal_date_range a b) = true -> forall d, a 
 Proof.
   intros H d Hd. rewrite forallb_forall in H. apply H. unfold cal_date_range. apply cal_range_f_in. lia.
 Qed.
-Lemma forallb_all_days P : forallb P all_days = true -> forall d, d1970 <= d <= d2200 -> P d = true.
-Proof. apply forallb_days. Qed.
+
+(* ---------- windowed evaluation ---------- *)
+Ltac Zify.zify_post_hook ::= Z.div_mod_to_equations.
+Lemma forall_chunked_spec a b Q : forall_chunked a b Q = true ->
+  forall d, a <= d <= b -> exists s, s <= d < s + chunk_len /\ Q s d = true.
+Proof.
+  unfold forall_chunked. intros H d Hd. rewrite forallb_forall in H.
+  set (k := (d - a) / chunk_len).
+  assert (Hk : In k (cal_range_f (Z.to_nat ((b - a) / chunk_len + 1)) 0)).
+  { apply cal_range_f_in. unfold k, chunk_len. lia. }
+  specialize (H k Hk). cbv zeta in H. rewrite forallb_forall in H.
+  assert (Hs : a + k * chunk_len <= d < a + k * chunk_len + chunk_len) by (unfold k, chunk_len; lia).
+  exists (a + k * chunk_len). split; auto.
+  assert (Hin : In d (cal_range_f (Z.to_nat chunk_len) (a + k * chunk_len))).
+  { apply cal_range_f_in. unfold chunk_len in *. lia. }
+  specialize (H d Hin). destruct (Z.leb_spec d b); [exact H|lia].
+Qed.
+Lemma zmem_filter (P : Z -> bool) d l : P d = true -> zmem d (filter P l) = zmem d l.
+Proof.
+  intros HP. unfold zmem. induction l as [|x l IH]; [reflexivity|]. cbn [filter].
+  destruct (P x) eqn:E; cbn [existsb]; rewrite IH; [reflexivity|].
+  destruct (Z.eqb_spec d x) as [->|]; [congruence|reflexivity].
+Qed.
+Lemma within_true d0 cnt d : d0 <= d < d0 + cnt -> within d0 cnt d = true.
+Proof. intros H. unfold within. apply andb_true_iff. split; [apply Z.leb_le|apply Z.ltb_lt]; lia. Qed.
+(* the windowed calendar answers like the full one inside its window *)
+Lemma restrict_spec c d0 cnt d : d0 <= d < d0 + cnt ->
+  cal_is_holiday (restrict c d0 cnt) d = cal_is_holiday c d /\ cal_is_weekday (restrict c d0 cnt) d = cal_is_weekday c d /\
+  cal_is_bus (restrict c d0 cnt) d = cal_is_bus c d.
+Proof.
+  intros H. assert (E : cal_is_holiday (restrict c d0 cnt) d = cal_is_holiday c d).
+  { unfold cal_is_holiday, restrict. cbn [c_hols]. apply zmem_filter. apply within_true; auto. }
+  unfold cal_is_bus. rewrite E. auto.
+Qed.
 
 Definition mask_sat_sun (c : cal) : Prop := forall v, In v (c_mask c) <-> v = 5 \/ v = 6.
 Lemma mask_sat_sun_of c :
@@ -47,10 +79,11 @@ Definition full_spec (n : string) (rs : list hrule) : Prop :=
 Lemma full_check_spec n rs : full_check (n, rs) = true -> full_spec n rs.
 Proof.
   unfold full_check, full_spec. cbn [fst snd]. destruct (by_name n) as [c| |]; try discriminate.
-  intros H. apply andb_true_iff in H. destruct H as [H H3]. apply andb_true_iff in H. destruct H as [H1 H2].
+  intros H. apply andb_true_iff in H. destruct H as [H H3]. unfold mask_is_sat_sun in H. apply andb_true_iff in H. destruct H as [H1 H2].
   exists c. split; auto. split; [apply mask_sat_sun_of; auto|].
-  intros d Hd Hw. pose proof (forallb_all_days _ H3 d Hd) as A. unfold full_agree, is_wd5 in A.
-  destruct (Z.ltb_spec (weekday d) 5); [|lia]. apply eqb_prop in A. exact A.
+  intros d Hd Hw. destruct (forall_chunked_spec _ _ _ H3 d Hd) as [s [Hs A]]. cbv zeta in A. unfold full_agree, is_wd5 in A.
+  destruct (Z.ltb_spec (weekday d) 5); [|lia]. apply eqb_prop in A.
+  destruct (restrict_spec c s chunk_len d Hs) as [E _]. rewrite E in A. exact A.
 Qed.
 
 (* ---------- partially published calendars ---------- *)
@@ -60,10 +93,11 @@ Definition partial_spec (n : string) (rs : list hrule) : Prop :=
 Lemma partial_check_spec n rs : partial_check (n, rs) = true -> partial_spec n rs.
 Proof.
   unfold partial_check, partial_spec. cbn [fst snd]. destruct (by_name n) as [c| |]; try discriminate.
-  intros H. apply andb_true_iff in H. destruct H as [H H3]. apply andb_true_iff in H. destruct H as [H1 H2].
+  intros H. apply andb_true_iff in H. destruct H as [H H3]. unfold mask_is_sat_sun in H. apply andb_true_iff in H. destruct H as [H1 H2].
   exists c. split; auto. split; [apply mask_sat_sun_of; auto|].
-  intros d Hd Hw Hr. pose proof (forallb_all_days _ H3 d Hd) as A. unfold partial_agree, is_wd5 in A.
-  destruct (Z.ltb_spec (weekday d) 5); [|lia]. rewrite Hr in A. cbn [andb] in A. exact A.
+  intros d Hd Hw Hr. destruct (forall_chunked_spec _ _ _ H3 d Hd) as [s [Hs A]]. cbv zeta in A. unfold partial_agree, is_wd5 in A.
+  destruct (Z.ltb_spec (weekday d) 5); [|lia]. rewrite Hr in A.
+  destruct (restrict_spec c s chunk_len d Hs) as [E _]. rewrite E in A. exact A.
 Qed.
 
 (* ---------- fed = nyc without Good Friday ---------- *)
@@ -75,8 +109,10 @@ Lemma fed_nyc_check_spec : fed_nyc_check = true -> fed_nyc_spec.
 Proof.
   unfold fed_nyc_check, fed_nyc_spec. destruct (by_name "fed") as [f| |]; try discriminate.
   destruct (by_name "nyc") as [n| |]; try discriminate. intros H. exists f, n. split; auto. split; auto.
-  intros d Hd Hw. pose proof (forallb_all_days _ H d Hd) as A. unfold fed_nyc_agree, is_wd5 in A.
-  destruct (Z.ltb_spec (weekday d) 5); [|lia]. apply eqb_prop in A. exact A.
+  intros d Hd Hw. destruct (forall_chunked_spec _ _ _ H d Hd) as [s [Hs A]]. cbv zeta in A. unfold fed_nyc_agree, is_wd5 in A.
+  destruct (Z.ltb_spec (weekday d) 5); [|lia]. apply eqb_prop in A.
+  destruct (restrict_spec f s chunk_len d Hs) as [E1 _]. destruct (restrict_spec n s chunk_len d Hs) as [E2 _].
+  rewrite E1, E2 in A. exact A.
 Qed.
 
 (* ---------- all / bus ---------- *)
@@ -88,7 +124,7 @@ Proof.
   destruct (by_name "bus") as [b| |]; try discriminate. cbn [c_hols c_mask].
   destruct ah; [|intros H; discriminate H]. destruct am; [|intros H; discriminate H].
   destruct (c_hols b) eqn:E; [|intros H; discriminate H].
-  intros H. apply andb_true_iff in H. destruct H as [H H2]. apply andb_true_iff in H. destruct H as [_ H1].
+  intros H. apply andb_true_iff in H. destruct H as [_ H]. unfold mask_is_sat_sun in H. apply andb_true_iff in H. destruct H as [H1 H2].
   exists b. repeat split; auto; apply mask_sat_sun_of; auto.
 Qed.
 (* a calendar without holidays: business day = weekday of its mask; `all`: every day *)
@@ -123,7 +159,9 @@ Proof.
   split; [destruct fx; [discriminate|discriminate]|].
   exists c. split; auto. split.
   - intros x Hx. split; [apply zmin_list_le|apply zmax_list_ge]; auto.
-  - intros d Hd. pose proof (forallb_days _ _ _ H2 d Hd) as A. unfold fix_agree in A. apply eqb_prop in A. exact A.
+  - intros d Hd. destruct (forall_chunked_spec _ _ _ H2 d Hd) as [s [Hs A]]. cbv zeta in A. unfold fix_agree in A. apply eqb_prop in A.
+    destruct (restrict_spec c s chunk_len d Hs) as [_ [_ E]]. rewrite E in A.
+    rewrite (zmem_filter _ _ _ (within_true _ _ _ Hs)) in A. exact A.
 Qed.
 
 (* ---------- documented names ---------- *)
@@ -131,22 +169,4 @@ Lemma doc_names_check_spec : doc_names_check = true -> forall n, In n Gen.DocNam
 Proof.
   unfold doc_names_check. rewrite forallb_forall. intros H n Hn. specialize (H n Hn). unfold resolves, is_ok in H.
   destruct (by_name n) as [c| |]; try discriminate. eauto.
-Qed.
-
-
-(* ---------- the windowed calendar used by Run/RunNamed.v answers like the full one inside its window ---------- *)
-Lemma zmem_filter (P : Z -> bool) d l : P d = true -> zmem d (filter P l) = zmem d l.
-Proof.
-  intros HP. unfold zmem. induction l as [|x l IH]; [reflexivity|]. cbn [filter].
-  destruct (P x) eqn:E; cbn [existsb]; rewrite IH; [reflexivity|].
-  destruct (Z.eqb_spec d x) as [->|]; [congruence|reflexivity].
-Qed.
-Lemma restrict_spec c d0 cnt d : d0 <= d < d0 + cnt ->
-  cal_is_holiday (restrict c d0 cnt) d = cal_is_holiday c d /\ cal_is_weekday (restrict c d0 cnt) d = cal_is_weekday c d /\
-  cal_is_bus (restrict c d0 cnt) d = cal_is_bus c d.
-Proof.
-  intros H. assert (E : cal_is_holiday (restrict c d0 cnt) d = cal_is_holiday c d).
-  { unfold cal_is_holiday, restrict. cbn [c_hols]. apply zmem_filter.
-    apply andb_true_iff. split; [apply Z.leb_le|apply Z.ltb_lt]; lia. }
-  unfold cal_is_bus. rewrite E. auto.
 Qed.
